@@ -84,7 +84,7 @@ func init() {
 			all := sweepScenarios(spec.roles)
 			for i := 0; i < n; i++ {
 				role := spec.roles[r.intn(len(spec.roles))]
-				all = append(all, scn{role, genScenario(r, role, r.intn(3) > 0)})
+				all = append(all, scn{role: role, steps: genScenario(r, role, r.intn(3) > 0)})
 			}
 			runMany(defaultCfg(), all, func(x scnResult) {
 				emit("# "+scenarioKey(x.sc.steps), "bad-op")
